@@ -678,6 +678,8 @@ class Interp:
     vec = obj.get() if isinstance(obj, Ref) else obj
     if name == 'size':
       return V(len(vec.items), 64, False)
+    if name == 'empty':
+      return V(1 if not vec.items else 0, 1, False)
     if name == 'swap':
       other = self.expr(n['inner'][1], env)
       a, b = obj.get(), other.get()
